@@ -278,6 +278,24 @@ def _gdb_dump(pid):
         return 'gdb failed: %r' % (e,)
 
 
+def _all_parked(pid):
+    """True iff every thread sits in futex(2) or rt_sigsuspend(2): a thread blocked in read()/write()
+    is waiting for the harness (slow feeder / slow drain), which is not a deadlock of the program."""
+    try:
+        tids = os.listdir('/proc/%d/task' % pid)
+    except OSError:
+        return False
+    for t in tids:
+        try:
+            with open('/proc/%d/task/%s/syscall' % (pid, t)) as f:
+                nr = f.read().split()[0]
+        except Exception:
+            return False
+        if nr not in ('202', '130'):        # x86-64: futex, rt_sigsuspend
+            return False
+    return True
+
+
 def judge_hang(pid, quiet_s=8.0):
     """Deadlock evidence: no CPU progress over quiet_s and every thread sleeping."""
     t0 = _cpu_ticks(pid)
@@ -292,7 +310,7 @@ def judge_hang(pid, quiet_s=8.0):
         if t1 != t0:
             return False, ''
     states = _thread_states(pid)
-    if states and all(s in 'SDt' for s in states):
+    if states and all(s in 'SDt' for s in states) and _all_parked(pid):
         return True, _gdb_dump(pid)
     return False, ''
 
@@ -364,11 +382,13 @@ def run(argv, stdin=None, env=None, cwd=None, timeout=120, stdout_path=None,
             except Exception:
                 pass
 
+    done = threading.Event()
+
     def reader(f, buf, pace):
         fd = f.fileno()
         try:
             while True:
-                if pace:
+                if pace and not done.is_set():
                     b = os.read(fd, pace[0])
                     if pace[1]:
                         time.sleep(pace[1])
@@ -415,8 +435,11 @@ def run(argv, stdin=None, env=None, cwd=None, timeout=120, stdout_path=None,
             except Exception:
                 pass
             proc.wait()
+    done.set()
     for t in threads:
-        t.join(timeout=30)
+        t.join(timeout=600)
+        if t.is_alive():
+            r.timed_out = True      # could not collect the output: inconclusive, never a verdict
     for f in (proc.stdin, proc.stdout, proc.stderr):
         try:
             if f:
